@@ -578,8 +578,9 @@ def rule_v8(F):
                 break
             src = conv[cs[0]]["args"][1] if len(conv[cs[0]]["args"]) > 1 else None
             key = mir.origin_key(b, defs, src[1]) if mir.is_place_op(src) else "?"
-            m = re.search(r"\.\[(\d+)\]", key)
-            idx = int(m.group(1)) if m else None
+            # the position in the argument vector: constant index, possibly inside `rest @ ..` sub-slices (offsets add up)
+            m = re.search(r"((?:\.\[\d+\.\.\])*)\.\[(\d+)\]", key)
+            idx = (int(m.group(2)) + sum(int(x) for x in re.findall(r"\[(\d+)\.\.\]", m.group(1)))) if m else None
             if idx is None and mir.is_place_op(src):
                 # taken out of the argument vector one by one: the position follows from the order of the extractions
                 ex = [c for c in mir.back_calls(b, defs, src[1][0]) if c in extract]
